@@ -236,6 +236,17 @@ def constraint_gen(tier):
                     yield Case("c%d" % n, ops, {"kind": "cons", "what": "$var", "t": tn, "u": un, "form": form})
                     n += 1
             # iterators: for (integer) and forall (element type)
+        # a $-variable that served as the control variable of a for loop (also of two nested ones) is still constrained afterwards
+        for un, ue in TYPES.items():
+            for form in ("%s", "idf(%s)"):
+                ue2 = form % ue
+                for loops in ("for $v in 1 to 2 loop nop; end loop;", "for $v in 1 to 2 loop for $v in 3 to 4 loop nop; end loop; end loop;",
+                              "for $v in 1 to 5 loop if $v == 2 then break; end if; end loop;"):
+                    ops = [op_ctx(), op_run(IDF), op_run("$v = 1; " + loops), op_run("print typeof($v);"), op_out(),
+                           op_run("$v = %s;" % ue2), op_run("print typeof($v);"), op_out(),
+                           op_run("begin $v = %s; exception when others then nop; end; print typeof($v);" % ue2), op_out()]
+                    yield Case("c%d" % n, ops, {"kind": "cons", "what": "$var", "t": "integer", "u": un, "form": form + " after " + loops[:24]})
+                    n += 1
         for un, ue in TYPES.items():
             for form in ("%s", "idf(%s)"):
                 ue2 = form % ue
